@@ -14,14 +14,18 @@ COUNT_NAMES = ("K", "R")
 
 # ------------------------------------------------------------------ expressions
 
-def gen_expr(rng, syms, depth, allow_div=True):
+POW_EXPONENTS = ("e1", "e2")     # leaf parameters used only as exponents of a power of a power; never linked, so their
+                                 # values stay small and no tower of powers can build up through links or assignments
+
+
+def gen_expr(rng, syms, depth, allow_div=True, exps=None):
     if depth <= 0 or rng.random() < 0.25 or not syms:
         if syms and rng.random() < 0.7:
             return E.sym(rng.choice(syms))
         return E.num(rng.choice([1, 2, 3, 4, 5, 7]))
     o = rng.choice(["add", "add", "mul", "mul", "sub", "f", "div", "pow", "ceil", "max"])
-    a = gen_expr(rng, syms, depth - 1)
-    b = gen_expr(rng, syms, depth - 1)
+    a = gen_expr(rng, syms, depth - 1, exps=exps)
+    b = gen_expr(rng, syms, depth - 1, exps=exps)
     if o == "f":
         r = rng.random()    # f is unary, g binary, everywhere; nested calls of the same function are common
         if r < 0.5:
@@ -34,6 +38,10 @@ def gen_expr(rng, syms, depth, allow_div=True):
     if o == "div":
         return E.op("div", a, E.num(rng.choice([2, 3, 4]))) if allow_div else E.op("add", a, b)
     if o == "pow":
+        if exps and rng.random() < 0.6:
+            # a power whose base is a power with a symbolic exponent (sympy does not flatten it): (2 ^ k) ^ d is not 2 ^ (k ^ d)
+            base = rng.choice([E.num(2), E.num(3), E.sym(rng.choice(syms))])
+            return E.op("pow", E.op("pow", base, E.sym(rng.choice(exps))), E.sym(rng.choice(exps)))
         return E.op("pow", a, E.num(rng.choice([2, 3])))
     if o == "ceil":
         return E.op("ceil", E.op("div", a, E.num(rng.choice([2, 3]))))
@@ -140,7 +148,13 @@ class Gen:
             locals_.reverse()      # listed against their dependency order (w = ... L ..., then L = ... n ...)
         n_out = rng.randint(0, 2)
         for k in range(n_out):
-            if self.qubits:
+            if self.qubits and size_syms and rng.random() < 0.3:
+                # a routine that allocates or releases dq qubits: an output of size n + dq, where the parameter dq may be
+                # negative while every port size stays non-negative (C16 asks for non-negative SIZES only)
+                if "dq" not in params:
+                    params.append("dq")
+                size = E.op(rng.choice(["add", "add", "sub"]), E.sym(rng.choice(size_syms)), E.sym("dq"))
+            elif self.qubits:
                 size = gen_size_expr(rng, scope)
             elif rng.random() < 0.08:
                 size = E.num(0)          # an empty register: a legitimate size (and, handed over natively, the integer 0)
@@ -152,7 +166,11 @@ class Gen:
         pool = [r for r in RES_POOL if not under_rep or r[1] == "additive" or (r[1] == "multiplicative" and rng.random() < 0.3)]
         if not self.allow_other:
             pool = [r for r in pool if r[1] in ("additive", "multiplicative")]
-        resources = [{"name": n, "type": t, "value": gen_expr(rng, scope_l, 2)} for n, t in self.subset(pool, 1, 3)]
+        exps = None
+        if not self.qubits and rng.random() < 0.25:
+            exps = list(POW_EXPONENTS[: rng.randint(1, 2)])
+            params.extend(e for e in exps if e not in params)
+        resources = [{"name": n, "type": t, "value": gen_expr(rng, scope_l, 2, exps=exps)} for n, t in self.subset(pool, 1, 3)]
         if self.mixed_types and not under_rep:
             for x in resources:
                 if x["type"] in ("additive", "multiplicative") and rng.random() < self.mixed_types:
@@ -261,6 +279,8 @@ class Gen:
         links = {}
         for ch in children:
             for p in ch["input_params"]:
+                if p in POW_EXPONENTS:
+                    continue
                 if scope_l and rng.random() < 0.7:
                     links.setdefault(rng.choice(scope_l), []).append([ch["name"], p])
         # deep links: a grandchild parameter its parent does not link
@@ -268,9 +288,15 @@ class Gen:
             for g in ch["children"]:
                 linked_in_ch = {(t[0], t[1]) for _, ts in ch["linked_params"] for t in ts}
                 for p in g["input_params"]:
-                    if (g["name"], p) not in linked_in_ch and scope_l and rng.random() < 0.3:
+                    if (g["name"], p) not in linked_in_ch and p not in POW_EXPONENTS and scope_l and rng.random() < 0.3:
                         links.setdefault(rng.choice(scope_l), []).append([f"{ch['name']}.{g['name']}", p])
         linked_params = [[s, ts] for s, ts in links.items()]
+        # the same source may be listed in two entries (N -> [a.x] and, separately, N -> [b.y]): their targets add up
+        for e in list(linked_params):
+            if len(e[1]) >= 2 and rng.random() < 0.25:
+                k = rng.randint(1, len(e[1]) - 1)
+                linked_params.append([e[0], e[1][k:]])
+                e[1] = e[1][:k]
         rng.shuffle(linked_params)
         repetition = None
         resources = []
@@ -481,6 +507,8 @@ def make_points(rng, names, n=4):
             base = nm.rsplit(".", 1)[-1]
             if base in COUNT_NAMES:
                 v = Fraction(rng.randint(0, 5))
+            elif base in POW_EXPONENTS:
+                v = Fraction(rng.randint(0, 4))
             elif base.startswith("#") or base in SIZE_POOL:
                 v = Fraction(rng.randint(1, 9))
             else:
